@@ -119,8 +119,39 @@ def NoUseAfterDropped (s : ChanSys) : CLabel → Prop
 def SWLegal (p : SWP) (s : ChanSys) (l : CLabel) : Prop :=
   CLegal s l ∧ NoUseAfterDropped s l ∧ (∀ h1 h2, l = .opn h1 h2 → h1 = p.hd)
 
-def SWGood (p : SWP) : Step ChanSys → Prop
-  | .ok s' _ => s'.h.trapped = false ∧ SWInv p s'
+/-- the values of the live buffer the host has not taken yet, in order: the window of the buffer of the write in
+flight beyond what the host has taken in this operation (its `progress` while it is copying; the count of the
+code the operation has received but not yet processed), the window of the buffer of a write not started yet or
+of the kept buffer, the values a `write_all` not polled yet holds -/
+def opNext (w : WOp WSt WSt) (h : HChan) : List Nat :=
+  match w.state with
+  | .start st => st.buf.window
+  | .inProgress st =>
+    match w.code with
+    | some c => st.buf.window.drop (Host.codeCount c)
+    | none => st.buf.window.drop h.e.progress
+  | .done => []
+
+def nextUp (s : ChanSys) : List Nat :=
+  match s.g.act with
+  | .swrite w => opNext w s.h
+  | .sall _ (.unpolled items) => items
+  | .sall _ (.awaiting _ w) => opNext w s.h
+  | _ => match s.g.kept with
+    | some b => b.window
+    | none => []
+
+/-- one step of the channel, seen from the reader: the host receives the next `j` values the guest exposes, in
+order (nothing else, nothing twice); and the guest's buffer afterwards exposes exactly the rest — unless no
+buffer is left (it was given back to the body as a vector or dropped: `untransferred_returned_or_dropped_once`), or
+the body made a new buffer of fresh values (ids `nextId …`) -/
+def FifoStep (s s' : ChanSys) : Prop :=
+  ∃ j, s'.h.received = s.h.received ++ (nextUp s).take j ∧ s.g.nextId ≤ s'.g.nextId ∧
+    (nextUp s' = (nextUp s).drop j ∨ (s'.g.act.isNone = true ∧ s'.g.kept = none) ∨
+     nextUp s' = List.range' s.g.nextId (s'.g.nextId - s.g.nextId))
+
+def SWGood (p : SWP) (s : ChanSys) : Step ChanSys → Prop
+  | .ok s' _ => s'.h.trapped = false ∧ SWInv p s' ∧ FifoStep s s'
   | .panic _ _ => False
 
 end Witverif.Async
@@ -268,6 +299,18 @@ theorem passive_valDrops (c : Nat) (k : PKind) (l : List Nat) : ∀ e ∈ valDro
   · rfl
 @[simp] theorem hostApplyAll_nil (c : Nat) (h : HChan) : hostApplyAll c h [] = (h, []) := rfl
 
+@[simp] theorem remaining_mk (c : Nat) (kind : PKind) (items : List Nat) (cursor : Nat) (slab : Bool) :
+    (AbiBuffer.mk c kind items cursor slab).remaining = items.length - cursor := rfl
+
+@[simp] theorem new_fst_window (c : Nat) (k : PKind) (items : List Nat) : (AbiBuffer.new c k items).1.window = items :=
+  (AbiBuffer.new_spec c k items).2.2.1
+@[simp] theorem new_fst_remaining (c : Nat) (k : PKind) (items : List Nat) : (AbiBuffer.new c k items).1.remaining = items.length := by
+  unfold AbiBuffer.new AbiBuffer.remaining; by_cases h : k.lowers <;> simp [h]
+@[simp] theorem new_fst_cursor (c : Nat) (k : PKind) (items : List Nat) : (AbiBuffer.new c k items).1.cursor = 0 :=
+  (AbiBuffer.new_spec c k items).2.1
+@[simp] theorem new_fst_items (c : Nat) (k : PKind) (items : List Nat) : (AbiBuffer.new c k items).1.items = items :=
+  (AbiBuffer.new_spec c k items).1
+
 macro "sw_eval" : tactic => `(tactic|
   simp (config := { decide := true }) [SWGood, SWInv, swSys, swHost, stOf, offerOf, SWP.g0, SWP.t, SWP.task, OpK.act,
     ChanSys.step, ChanSys.absorb, ChanSys.syncCopy, ChanSys.syncCancel, GChan.starting, wopStarting, WOp.new, copyMoves, cancelMoves,
@@ -287,7 +330,11 @@ macro "sw_chk" : tactic => `(tactic|
     Host.End.stAfter, Host.COMPLETED, Host.DROPPED, Host.BLOCKED, Host.packCode, Host.codeBase, *]) <;>
    (try (first | assumption | omega | simp_all | (constructor <;> (first | assumption | omega | simp_all))))))
 
-macro "sw_try" t:term : tactic => `(tactic| (refine ⟨$t, ?_⟩; sw_chk; done))
+macro "fifo_chk" : tactic => `(tactic|
+  ((simp (config := { decide := true }) [FifoStep, nextUp, opNext, WOp.new, Host.codeCount, AbiBuffer.window, List.drop_drop, *]) <;>
+   (first | (exact ⟨_, rfl⟩) | (exact ⟨_, rfl, Or.inl rfl⟩) | (exact ⟨_, rfl, Or.inl (by omega)⟩) | (exact ⟨_, rfl, Or.inr (by omega)⟩) | omega)))
+
+macro "sw_try" t:term : tactic => `(tactic| (refine ⟨⟨$t, ?_⟩, ?_⟩; (· sw_chk); (· fifo_chk)))
 
 syntax "sw_go" "[" term,+ "]" : tactic
 macro_rules
@@ -306,7 +353,7 @@ macro "sw_legal" : tactic => `(tactic|
     Host.codeBase, Host.codeCount, Host.DROPPED, Host.COMPLETED, Host.CANCELLED, Host.End.stAfter, Host.packCode, Host.BLOCKED] at *)
 
 theorem sw_closed (p : SWP) (hh : p.hd ≠ 0) (hv : p.v = 1 ∨ p.v = 2) (l : CLabel)
-    (hl : SWLegal p (swSys p .closed) l) : SWGood p ((swSys p .closed).step l) := by
+    (hl : SWLegal p (swSys p .closed) l) : SWGood p (swSys p .closed) ((swSys p .closed).step l) := by
   obtain ⟨hl, hn, hopn⟩ := hl
   clear hn
   cases l with
@@ -327,7 +374,7 @@ theorem new_okBuf (p : SWP) (items : List Nat) : p.okBuf (AbiBuffer.new p.c p.ki
 
 theorem sw_idle (p : SWP) (n : Nat) (gd hdn : Bool) (kept : Option AbiBuffer) (win rcv : List Nat)
     (hh : p.hd ≠ 0) (hv : p.v = 1 ∨ p.v = 2) (hok : swOk p (.idle n gd hdn kept win rcv)) (l : CLabel)
-    (hl : SWLegal p (swSys p (.idle n gd hdn kept win rcv)) l) : SWGood p ((swSys p (.idle n gd hdn kept win rcv)).step l) := by
+    (hl : SWLegal p (swSys p (.idle n gd hdn kept win rcv)) l) : SWGood p (swSys p (.idle n gd hdn kept win rcv)) ((swSys p (.idle n gd hdn kept win rcv)).step l) := by
   simp only [swOk] at hok
   obtain ⟨hgd, hkb⟩ := hok
   obtain ⟨hl, hn, hopn⟩ := hl
@@ -379,7 +426,7 @@ theorem okBuf_advance (p : SWP) (b : AbiBuffer) (k : Nat) (hb : p.okBuf b) (hk :
 
 theorem sw_ready (p : SWP) (n : Nat) (gd hdn : Bool) (b : AbiBuffer) (win rcv : List Nat)
     (hh : p.hd ≠ 0) (hv : p.v = 1 ∨ p.v = 2) (hok : swOk p (.ready n gd hdn b win rcv)) (l : CLabel)
-    (hl : SWLegal p (swSys p (.ready n gd hdn b win rcv)) l) : SWGood p ((swSys p (.ready n gd hdn b win rcv)).step l) := by
+    (hl : SWLegal p (swSys p (.ready n gd hdn b win rcv)) l) : SWGood p (swSys p (.ready n gd hdn b win rcv)) ((swSys p (.ready n gd hdn b win rcv)).step l) := by
   simp only [swOk] at hok
   obtain ⟨hgd, hb⟩ := hok
   obtain ⟨hl, hn, hopn⟩ := hl
@@ -412,18 +459,6 @@ theorem sw_ready (p : SWP) (n : Nat) (gd hdn : Bool) (b : AbiBuffer) (win rcv : 
   | peerDrop => clear hl hn; cases hdn <;> sw_go [.ready n gd false b win rcv, .ready n gd true b win rcv]
   | _ => clear hl hn; sw_go [.ready n gd hdn b win rcv, .idle n gd hdn (some b) win rcv, .idle n gd hdn none win rcv]
 
-@[simp] theorem remaining_mk (c : Nat) (kind : PKind) (items : List Nat) (cursor : Nat) (slab : Bool) :
-    (AbiBuffer.mk c kind items cursor slab).remaining = items.length - cursor := rfl
-
-@[simp] theorem new_fst_window (c : Nat) (k : PKind) (items : List Nat) : (AbiBuffer.new c k items).1.window = items :=
-  (AbiBuffer.new_spec c k items).2.2.1
-@[simp] theorem new_fst_remaining (c : Nat) (k : PKind) (items : List Nat) : (AbiBuffer.new c k items).1.remaining = items.length := by
-  unfold AbiBuffer.new AbiBuffer.remaining; by_cases h : k.lowers <;> simp [h]
-@[simp] theorem new_fst_cursor (c : Nat) (k : PKind) (items : List Nat) : (AbiBuffer.new c k items).1.cursor = 0 :=
-  (AbiBuffer.new_spec c k items).2.1
-@[simp] theorem new_fst_items (c : Nat) (k : PKind) (items : List Nat) : (AbiBuffer.new c k items).1.items = items :=
-  (AbiBuffer.new_spec c k items).1
-
 /-- the outcome of `in_progress_update` for a code the buffer can absorb -/
 theorem swUpdate_ok (p : SWP) (b : AbiBuffer) (base k : Nat) (hb : p.okBuf b) (hbase : base = 0 ∨ base = 1)
     (hk : k ≤ offerOf b) :
@@ -455,7 +490,7 @@ theorem legalCancelRet_stream (e : Host.End) (ans : Nat) (hf : e.fut = false) (h
 theorem sw_allNew (p : SWP) (n : Nat) (one : Bool) (items : List Nat) (gd hdn : Bool) (win rcv : List Nat)
     (hh : p.hd ≠ 0) (hv : p.v = 1 ∨ p.v = 2) (hok : swOk p (.allNew n one items gd hdn win rcv)) (l : CLabel)
     (hl : SWLegal p (swSys p (.allNew n one items gd hdn win rcv)) l) :
-    SWGood p ((swSys p (.allNew n one items gd hdn win rcv)).step l) := by
+    SWGood p (swSys p (.allNew n one items gd hdn win rcv)) ((swSys p (.allNew n one items gd hdn win rcv)).step l) := by
   simp only [swOk] at hok
   obtain ⟨hl, hn, hopn⟩ := hl
   clear hopn
@@ -495,7 +530,7 @@ theorem sw_allNew (p : SWP) (n : Nat) (one : Bool) (items : List Nat) (gd hdn : 
 theorem sw_running (p : SWP) (n : Nat) (one : Bool) (b : AbiBuffer) (gs gd hdn : Bool) (win rcv : List Nat)
     (hh : p.hd ≠ 0) (hv : p.v = 1 ∨ p.v = 2) (hok : swOk p (.running n one b gs gd hdn win rcv)) (l : CLabel)
     (hl : SWLegal p (swSys p (.running n one b gs gd hdn win rcv)) l) :
-    SWGood p ((swSys p (.running n one b gs gd hdn win rcv)).step l) := by
+    SWGood p (swSys p (.running n one b gs gd hdn win rcv)) ((swSys p (.running n one b gs gd hdn win rcv)).step l) := by
   simp only [swOk] at hok
   obtain ⟨hgd, hb, hrem, hdg, hgs⟩ := hok
   obtain ⟨hl, hn, hopn⟩ := hl
@@ -543,7 +578,7 @@ theorem sw_waiting_host (p : SWP) (n : Nat) (k : OpK) (b : AbiBuffer) (pr : Nat)
     (hh : p.hd ≠ 0) (hv : p.v = 1 ∨ p.v = 2) (hb : p.okBuf b) (hpr : pr ≤ offerOf b) (hp : pendOk pr pend) (l : CLabel)
     (hl : CLegal (swSys p (.waiting n k b pr pend rcv)) l)
     (hkind : l = .peerDrop ∨ l = .deliver ∨ (∃ j, l = .peerXfer j) ∨ (∃ a, l = .poll a)) :
-    SWGood p ((swSys p (.waiting n k b pr pend rcv)).step l) := by
+    SWGood p (swSys p (.waiting n k b pr pend rcv)) ((swSys p (.waiting n k b pr pend rcv)).step l) := by
   rcases hkind with rfl | rfl | ⟨j, rfl⟩ | ⟨a, rfl⟩
   · -- the peer drops
     rcases hp with ⟨rfl, rfl⟩ | rfl | rfl
@@ -610,7 +645,7 @@ theorem sw_waiting_plain_end0 (p : SWP) (n : Nat) (b : AbiBuffer) (rcv : List Na
     (hh : p.hd ≠ 0) (hv : p.v = 1 ∨ p.v = 2) (hb : p.okBuf b) (l : CLabel)
     (hl : CLegal (swSys p (.waiting n .plain b 0 none rcv)) l)
     (hkind : (∃ a, l = .cancel a) ∨ (∃ a, l = .dropOp a) ∨ (∃ ex a, l = .close ex a)) :
-    SWGood p ((swSys p (.waiting n .plain b 0 none rcv)).step l) := by
+    SWGood p (swSys p (.waiting n .plain b 0 none rcv)) ((swSys p (.waiting n .plain b 0 none rcv)).step l) := by
   have hans : ∀ a, (swSys p (.waiting n .plain b 0 none rcv)).h.e.legalCancelRet a = true →
       ∃ base j, a = base + 16 * j ∧ base < 3 ∧ j ≤ offerOf b := by
     intro a ha
@@ -658,7 +693,7 @@ theorem sw_waiting_all_end0 (p : SWP) (n : Nat) (one first : Bool) (b : AbiBuffe
     (hh : p.hd ≠ 0) (hv : p.v = 1 ∨ p.v = 2) (hb : p.okBuf b) (l : CLabel)
     (hl : CLegal (swSys p (.waiting n (.all one first) b 0 none rcv)) l)
     (hkind : (∃ a, l = .dropOp a) ∨ (∃ ex a, l = .close ex a)) :
-    SWGood p ((swSys p (.waiting n (.all one first) b 0 none rcv)).step l) := by
+    SWGood p (swSys p (.waiting n (.all one first) b 0 none rcv)) ((swSys p (.waiting n (.all one first) b 0 none rcv)).step l) := by
   have hans : ∀ a, (swSys p (.waiting n (.all one first) b 0 none rcv)).h.e.legalCancelRet a = true →
       ∃ base j, a = base + 16 * j ∧ base < 3 ∧ j ≤ offerOf b := by
     intro a ha
@@ -693,7 +728,7 @@ theorem sw_waiting_end1 (p : SWP) (n : Nat) (k : OpK) (b : AbiBuffer) (pr base :
     (hh : p.hd ≠ 0) (hv : p.v = 1 ∨ p.v = 2) (hb : p.okBuf b) (hpr : pr ≤ offerOf b) (hbase : base = 0 ∨ base = 1) (l : CLabel)
     (hl : CLegal (swSys p (.waiting n k b pr (some (base + 16 * pr)) rcv)) l)
     (hkind : (∃ a, l = .cancel a) ∨ (∃ a, l = .dropOp a) ∨ (∃ ex a, l = .close ex a)) :
-    SWGood p ((swSys p (.waiting n k b pr (some (base + 16 * pr)) rcv)).step l) := by
+    SWGood p (swSys p (.waiting n k b pr (some (base + 16 * pr)) rcv)) ((swSys p (.waiting n k b pr (some (base + 16 * pr)) rcv)).step l) := by
   have hu := swUpdate_ok3 p b base pr hb (by omega) hpr
   obtain ⟨hb', _, _⟩ := okBuf_advance p b pr hb hpr
   rcases hkind with ⟨a, rfl⟩ | ⟨a, rfl⟩ | ⟨ex, a, rfl⟩
@@ -732,12 +767,12 @@ theorem sw_waiting_end1 (p : SWP) (n : Nat) (k : OpK) (b : AbiBuffer) (pr base :
 theorem sw_waiting (p : SWP) (n : Nat) (k : OpK) (b : AbiBuffer) (pr : Nat) (pend : Option Nat) (rcv : List Nat)
     (hh : p.hd ≠ 0) (hv : p.v = 1 ∨ p.v = 2) (hok : swOk p (.waiting n k b pr pend rcv)) (l : CLabel)
     (hl : SWLegal p (swSys p (.waiting n k b pr pend rcv)) l) :
-    SWGood p ((swSys p (.waiting n k b pr pend rcv)).step l) := by
+    SWGood p (swSys p (.waiting n k b pr pend rcv)) ((swSys p (.waiting n k b pr pend rcv)).step l) := by
   obtain ⟨hb, hpr, hp⟩ := (swOk_waiting_iff p n k b pr pend rcv).mp hok
   obtain ⟨hl, hn, hopn⟩ := hl
   clear hopn hn
   have hend : ∀ l', l' = l → ((∃ a, l' = .cancel a) ∨ (∃ a, l' = .dropOp a) ∨ (∃ ex a, l' = .close ex a)) →
-      SWGood p ((swSys p (.waiting n k b pr pend rcv)).step l') := by
+      SWGood p (swSys p (.waiting n k b pr pend rcv)) ((swSys p (.waiting n k b pr pend rcv)).step l') := by
     intro l' hll hk'
     subst hll
     rcases hp with ⟨rfl, rfl⟩ | rfl | rfl
@@ -775,7 +810,7 @@ set_option maxHeartbeats 2000000 in
 theorem sw_queued (p : SWP) (n : Nat) (k : OpK) (b : AbiBuffer) (code : Nat) (rcv : List Nat)
     (hh : p.hd ≠ 0) (hv : p.v = 1 ∨ p.v = 2) (hok : swOk p (.queued n k b code rcv)) (l : CLabel)
     (hl : SWLegal p (swSys p (.queued n k b code rcv)) l) :
-    SWGood p ((swSys p (.queued n k b code rcv)).step l) := by
+    SWGood p (swSys p (.queued n k b code rcv)) ((swSys p (.queued n k b code rcv)).step l) := by
   simp only [swOk] at hok
   obtain ⟨hb, base, j, rfl, hbase, hj⟩ := hok
   obtain ⟨hl, hn, hopn⟩ := hl
@@ -847,7 +882,7 @@ theorem sw_queued (p : SWP) (n : Nat) (k : OpK) (b : AbiBuffer) (code : Nat) (rc
 
 theorem sw_gone (p : SWP) (n : Nat) (st : CopySt) (win rcv : List Nat) (hh : p.hd ≠ 0) (hv : p.v = 1 ∨ p.v = 2)
     (hok : swOk p (.gone n st win rcv)) (l : CLabel)
-    (hl : SWLegal p (swSys p (.gone n st win rcv)) l) : SWGood p ((swSys p (.gone n st win rcv)).step l) := by
+    (hl : SWLegal p (swSys p (.gone n st win rcv)) l) : SWGood p (swSys p (.gone n st win rcv)) ((swSys p (.gone n st win rcv)).step l) := by
   simp only [swOk] at hok
   have hst : st = .idle ∨ st = .done := by cases st <;> simp at hok ⊢
   obtain ⟨hl, hn, hopn⟩ := hl
@@ -861,7 +896,7 @@ theorem sw_gone (p : SWP) (n : Nat) (st : CopySt) (win rcv : List Nat) (hh : p.h
 
 /-- Every legal step from a state satisfying the invariant is good. -/
 theorem sw_step_safe (p : SWP) (s : ChanSys) (l : CLabel) (hI : SWInv p s) (hl : SWLegal p s l) :
-    SWGood p (s.step l) := by
+    SWGood p s (s.step l) := by
   obtain ⟨hh, hv, sh, rfl, hok⟩ := hI
   cases sh with
   | closed => exact sw_closed p hh hv l hl
@@ -885,6 +920,58 @@ theorem sw_reach_inv {p : SWP} (hh : p.hd ≠ 0) (hv : p.v = 1 ∨ p.v = 2) {s t
   | step hr hl hs ih =>
     have hg := sw_step_safe p _ _ ih.1 hl
     rw [hs] at hg
-    exact ⟨hg.2, hg.1⟩
+    exact ⟨hg.2.1, hg.1⟩
+
+/-! ### FIFO: what the reader gets, over all histories -/
+
+theorem sw_step_fifo {p : SWP} (hh : p.hd ≠ 0) (hv : p.v = 1 ∨ p.v = 2) {s tr} (h : SWReach p s tr) {l : CLabel}
+    (hl : SWLegal p s l) {s' evs} (hs : s.step l = .ok s' evs) : FifoStep s s' := by
+  have hg := sw_step_safe p s l (sw_reach_inv hh hv h).1 hl
+  rw [hs] at hg
+  exact hg.2.2
+
+/-- everything the reader has received followed by what the guest still exposes is strictly increasing (values are
+numbered in the order the body wrote them) and below the next fresh id -/
+def FifoInv (s : ChanSys) : Prop :=
+  (s.h.received ++ nextUp s).Pairwise (· < ·) ∧ ∀ x ∈ s.h.received ++ nextUp s, x < s.g.nextId
+
+theorem nextUp_noBuffer (s : ChanSys) (h1 : s.g.act.isNone = true) (h2 : s.g.kept = none) : nextUp s = [] := by
+  unfold nextUp
+  cases ha : s.g.act <;> simp_all [Act.isNone]
+
+theorem fifoInv_step {s s' : ChanSys} (hi : FifoInv s) (hf : FifoStep s s') : FifoInv s' := by
+  obtain ⟨hp, hb⟩ := hi
+  obtain ⟨j, hr, hn, hcase⟩ := hf
+  have hsub : (s.h.received ++ (nextUp s).take j).Sublist (s.h.received ++ nextUp s) :=
+    List.Sublist.append_left (List.take_sublist _ _) _
+  rcases hcase with hc | ⟨h1, h2⟩ | hc
+  · have heq : s'.h.received ++ nextUp s' = s.h.received ++ nextUp s := by
+      rw [hr, hc, List.append_assoc, List.take_append_drop]
+    unfold FifoInv
+    rw [heq]
+    exact ⟨hp, fun x hx => Nat.lt_of_lt_of_le (hb x hx) hn⟩
+  · have hu := nextUp_noBuffer s' h1 h2
+    unfold FifoInv
+    rw [hu, List.append_nil, hr]
+    exact ⟨hp.sublist hsub, fun x hx => Nat.lt_of_lt_of_le (hb x (hsub.subset hx)) hn⟩
+  · unfold FifoInv
+    rw [hc, hr]
+    refine ⟨?_, ?_⟩
+    · rw [List.pairwise_append]
+      refine ⟨hp.sublist hsub, List.pairwise_lt_range', ?_⟩
+      intro a ha b hb'
+      have := hb a (hsub.subset ha)
+      rw [List.mem_range'_1] at hb'
+      omega
+    · intro x hx
+      rw [List.mem_append] at hx
+      rcases hx with hx | hx
+      · have := hb x (hsub.subset hx); omega
+      · rw [List.mem_range'_1] at hx; omega
+
+theorem sw_reach_fifo {p : SWP} (hh : p.hd ≠ 0) (hv : p.v = 1 ∨ p.v = 2) {s tr} (h : SWReach p s tr) : FifoInv s := by
+  induction h with
+  | init => exact ⟨by simp [swSys, nextUp, SWP.g0], by simp [swSys, nextUp, SWP.g0]⟩
+  | step hr hl hs ih => exact fifoInv_step ih (sw_step_fifo hh hv hr hl hs)
 
 end Witverif.Async
